@@ -35,11 +35,12 @@ class JSplit:
 
     spot_names = ["pieces do not retrace the original edges at the split parameters", "zero-length piece created", "area / orientation changed by split"]
 
-    def __init__(self, poly, indexs, nodes=None):
+    def __init__(self, poly, indexs, nodes=None, scale=1):
         """nodes=None: the split parameters are the symbolic inputs (split only; clean() with a symbolic junction
         parameter leaves the encodable fragment: pynurbs' least squares switches to float64 linear algebra).
         nodes=[...]: concrete parameters, the polygon is translated by the symbolic (tx, ty) and clean() is included."""
         self.poly, self.indexs = poly, list(indexs)
+        self.scale = F(scale)  # the same drawing in another unit of length (concrete factor)
         self.nodes = None if nodes is None else [F(x) for x in nodes]
         self.names = [f"n{i}" for i in range(len(indexs))] if nodes is None else ["tx", "ty"]
 
@@ -62,10 +63,11 @@ class JSplit:
         return list(xs) if self.nodes is None else list(self.nodes)
 
     def run(self, xs):
+        base = [(self.scale * F(x), self.scale * F(y)) for x, y in geom.POLY[self.poly]]
         if self.nodes is None:
-            pts = geom.tr_pts(geom.POLY[self.poly])
+            pts = geom.tr_pts(base)
         else:
-            pts = geom.tr_pts(geom.POLY[self.poly], xs[0], xs[1])
+            pts = geom.tr_pts(base, xs[0], xs[1])
         J = JordanCurve.from_vertices(pts)
         ret = J.split(list(self.indexs), self.params(xs))
         out = {"ret_none": ret is None, "v": [list(p) for p in verts(J)], "closed": closed_by_identity(J), "_pts": pts, "clean": self.nodes is not None}
@@ -219,6 +221,8 @@ class JSplit:
                     near.append(x)
         same_seg_equal = any(self.indexs[i] == self.indexs[j] and F(xs[i]) == F(xs[j]) for i in range(len(xs)) for j in range(i + 1, len(xs)))
         sig = {"name": name.split(" raised")[0].replace(" [near-degenerate parameters]", ""), "nodes_within_2e-6_of_each_other_or_of_an_end": bool(near), "repeated_node_on_one_segment": bool(same_seg_equal)}
+        pts = [(self.scale * F(x), self.scale * F(y)) for x, y in geom.POLY[self.poly]]
+        sig["fine_drawing_shortest_edge_below_2e-3"] = bool(min((pts[i][0] - pts[i - 1][0]) ** 2 + (pts[i][1] - pts[i - 1][1]) ** 2 for i in range(len(pts))) < F(4, 10**6))
         if exc:
             sig["exc"] = exc["exc"]
         return sig
@@ -335,6 +339,10 @@ def specs(tier):
                ("rhombus", [3, 3], ["1/1000", "999/1000"])]
     for p, ix, ns in cl:
         out.append(dict(module=Mo, scenario="JSplit", params=dict(poly=p, indexs=ix, nodes=ns)))
+    for p, ix, ns, sc in [("tri", [1, 1], ["1/4", "2/3"], "1/2000"), ("penta", [0, 3], ["1/3", "1/7"], "1/500"), ("square", [0], ["1/3"], "1/5000")] + (
+        [("quad", [2, 2, 0], ["1/5", "4/5", "1/2"], "1/3000"), ("ell", [0, 2, 5], ["1/2", "1/3", "9/10"], "1/1000"), ("tri", [0, 1, 2], ["1/3", "1/3", "2/3"], "4000")] if tier != "quick" else []
+    ):  # fine drawings: split + clean must restore the segmentation at every size
+        out.append(dict(module=Mo, scenario="JSplit", params=dict(poly=p, indexs=ix, nodes=ns, scale=sc)))
     for ch, ix, ns in [("q1", 1, ["1/3"]), ("q2", 0, ["1/4"]), ("c1", 0, ["2/5"]), ("q2", 1, ["1/3", "3/4"]), ("c1", 0, ["1/2"]), ("q1", 1, ["1/2"])] + (
         [("q1", 1, ["1/5", "1/2", "4/5"]), ("q2", 0, ["1/8", "7/8"]), ("c1", 0, ["1/10", "3/10", "7/10"]), ("q2", 1, ["9/10"])] if tier != "quick" else []
     ):
